@@ -34,7 +34,7 @@ HARNESSES = {
     "host": dict(pkg="flow/agent/multiagent/host", test="^TestVerifHostConc$", marker="VERIF-HOSTCONC cases=",
                  overlay={"flow/agent/multiagent/host/zz_verif_hostconc_test.go": os.path.join(H, "flow", "agent", "multiagent", "host", "zz_verif_hostconc_test.go")}),
 }
-A_ALL = dict(NC=2, Scripts=[0, 10, 11, 20, 21, 22], StateMode="percall", ErrVar="repaired", RdVar="state", InputMode="own", HistMode="copy", ToolsVar="percall")
+A_ALL = dict(NC=2, Scripts=[0, 10, 11, 20, 21, 22], StateMode="percall", ErrVar="repaired", RdVar="state", InputMode="own", HistMode="copy", ToolsVar="percall", HistAlloc="perrun")
 MALFORMED = ("unknown-observation", "line-outside-a-case", "case-not-closed-by-an-end-line", "trace-ends-inside-a-case")
 
 
@@ -55,6 +55,7 @@ def model_check(tier):
             ("nc2-history-adopts-own-input", a_consts(HistMode="adopt"), "RuleOK"),
             ("nc2-state-once-at-compile", a_consts(StateMode="shared"), "RuleOK"),
             ("nc2-rdid-in-constructor-variable", a_consts(RdVar="ctor"), "RuleOK"),
+            ("nc2-history-buffer-allocated-once", a_consts(HistAlloc="once"), "RuleOK"),
             ("nc2-tool-list-saved-on-the-node", a_consts(ToolsVar="node"), "RuleOK"),
             ("nc2-tool-list-saved-on-the-node-race", a_consts(ToolsVar="node"), "NoRace")]
     states = trans = 0
